@@ -5,9 +5,20 @@ interleaving of the events its guards admit).  The semantics of asyncio / trio /
 in the guards of the LTS (assumed); the bookkeeping is what is proved.
 -/
 import CobaldVerif.Lemmas.RuntimeProgress
+import CobaldVerif.Generated.Src
 
 namespace Cobald.Props.C01
 open Cobald Cobald.Runtime
+
+/-- the payload monitors of the asyncio and thread runners as they stand in the source (checked on the
+syntax tree on every run, `Generated/Src.lean`): whatever the payload raises - `BaseException`, not just
+`Exception` - is a failure, a returned `None` is the only silent outcome, anything else returned becomes
+an `OrphanedReturn` carrying the payload and the value.  That is `Out.failing` of the LTS:
+every outcome but `none` fails. -/
+theorem gen_monitor_shape : Gen.monitorShapeAsyncio = true ∧ Gen.monitorShapeThread = true ∧
+    (∀ o : Out, o.failing = true ↔ o ≠ .none) := by
+  refine ⟨by decide, by decide, fun o => ?_⟩
+  cases o <;> simp [Out.failing]
 
 /-- the first failure wins and is never forgotten: a failed latch names a payload whose body
 really ended with a failing outcome -/
